@@ -28,7 +28,13 @@
 struct vt_map vt_maps[4];
 struct vt_task vt_current;
 long vt_helper_calls;
-void vt_yield(const char *what) { (void)what; vt_helper_calls++; }
+/* In the hook-granularity search a helper call is just counted. In the helper-granularity search (fine_mode)
+   every helper call is a scheduling point: the hook runs as a coroutine and hands control back to the
+   scheduler BEFORE the helper executes; when it is resumed the helper runs atomically. */
+#include <ucontext.h>
+static int fine_mode;
+static void fine_yield(void);
+void vt_yield(const char *what) { (void)what; vt_helper_calls++; if (fine_mode) fine_yield(); }
 
 static struct vt_map *vt_get(const void *id, unsigned ks, unsigned vs, unsigned cap, unsigned type) {
     for (int i = 0; i < 4; i++)
@@ -84,6 +90,7 @@ struct thread {
     struct bpf_sock_addr ctx;     /* in-flight connect */
     int matched_at_connect4;      /* reference: (dest,TCP) was in the policy when connect4 ran */
     int straddled;                /* the policy changed between the two hooks of the in-flight connect */
+    uint16_t cur_sport;           /* helper-granularity search: source port of the in-flight tcp_connect */
 };
 struct world {
     struct vt_map maps[4];
@@ -295,6 +302,103 @@ static void explore(struct world *init) {
     }
 }
 
+
+/* ------------------------------------------------------------------ helper-granularity interleavings
+ * Stateless, preemption-bounded DFS (iterative context bounding): an execution is a sequence of choices
+ * "which thread runs until its next helper call"; choice 0 continues the running thread (or takes the
+ * lowest runnable one when it has finished), other choices switch; switching away from a thread that could
+ * continue is a preemption. Every execution runs all hooks of all threads to completion from the initial
+ * maps; explore_fine() replays a prefix and then enumerates the alternatives at every later point whose
+ * preemption count stays within the bound. Environment events (policy toggle, abort, port reuse) are the
+ * hook-granularity search's business and are off here. */
+#define FSTK (256 * 1024)
+#define FMAXP 160
+static ucontext_t fine_sched;
+static struct { ucontext_t ctx; char *stack; int active, done; } fco[MAXT];
+static struct world *fw;          /* world of the running execution */
+static int fcur = -1;             /* running thread */
+static long n_fine_exec, n_fine_steps, n_fine_configs, n_fine_maxpre;
+static int fine_bound;
+static void fine_yield(void) { int me = fcur; swapcontext(&fco[me].ctx, &fine_sched); vt_current = fw->th[me].id; }
+static void fine_hook(void) {
+    struct thread *th = &fw->th[fcur];
+    int k = th->pc / 2; struct conn *c = &th->c[k];
+    if (th->pc % 2 == 0) {
+        memset(&th->ctx, 0, sizeof th->ctx);
+        th->ctx.user_family = 2; th->ctx.user_ip4 = c->ip; th->ctx.user_port = htons(c->port); th->ctx.family = 2; th->ctx.type = c->proto == 6 ? 1 : 2; th->ctx.protocol = c->proto;
+        th->matched_at_connect4 = 0; th->straddled = 0;
+        for (int e = 0; e < 3; e++) if ((fw->policy_bits & (1u << e)) && c->ip == EP_IP[e] && c->port == EP_PORT[e] && c->proto == 6) th->matched_at_connect4 = 1;
+        connect4(&th->ctx);
+    } else {
+        struct probe_sock sk; memset(&sk, 0, sizeof sk);
+        sk.__sk_common.skc_family = 2; sk.__sk_common.skc_daddr = th->ctx.user_ip4; sk.__sk_common.skc_dport = (uint16_t)th->ctx.user_port; sk.__sk_common.skc_num = th->cur_sport;
+        struct pt_regs regs; memset(&regs, 0, sizeof regs); regs.rdi = (unsigned long)&sk;
+        tcp_v4_connect(&regs);
+    }
+    fco[fcur].done = 1;
+}
+struct fpoint { int nen; int cur_enabled; int choice; };
+/* run one execution: replay `prefix`, then choice 0; returns the number of decision points */
+static int fine_run(const struct world *init, const int *prefix, int np, struct fpoint *pts) {
+    struct world w = *init; fw = &w;
+    memcpy(vt_maps, w.maps, sizeof vt_maps);
+    for (int t = 0; t < w.nth; t++) { fco[t].active = 0; fco[t].done = 0; }
+    fcur = -1; int npts = 0; int running = -1;
+    for (;;) {
+        int en[MAXT], nen = 0, cur_enabled = 0;
+        if (running >= 0 && w.th[running].pc < 2 * w.th[running].nconn) { en[nen++] = running; cur_enabled = 1; }
+        for (int t = 0; t < w.nth; t++) if (t != running && w.th[t].pc < 2 * w.th[t].nconn) en[nen++] = t;
+        if (!nen) break;
+        int choice = npts < np ? prefix[npts] : 0;
+        if (choice >= nen) { fprintf(stderr, "MACHINERY: replayed choice out of range\n"); exit(2); }
+        if (npts >= FMAXP) { fprintf(stderr, "MACHINERY: too many scheduling points\n"); exit(2); }
+        pts[npts].nen = nen; pts[npts].cur_enabled = cur_enabled; pts[npts].choice = choice; npts++;
+        int t = en[choice]; struct thread *th = &w.th[t];
+        if (w.tlen < 94) w.trace[w.tlen++] = (char)('0' + t);
+        fcur = t; vt_current = th->id;
+        if (!fco[t].active) {
+            if (th->pc % 2 == 1) th->cur_sport = w.next_sport++;
+            getcontext(&fco[t].ctx);
+            if (!fco[t].stack) fco[t].stack = malloc(FSTK);
+            fco[t].ctx.uc_stack.ss_sp = fco[t].stack; fco[t].ctx.uc_stack.ss_size = FSTK; fco[t].ctx.uc_link = &fine_sched;
+            fco[t].active = 1; fco[t].done = 0;
+            makecontext(&fco[t].ctx, fine_hook, 0);
+        }
+        swapcontext(&fine_sched, &fco[t].ctx);
+        n_fine_steps++;
+        if (fco[t].done) {
+            fco[t].active = 0; fco[t].done = 0;
+            int k = th->pc / 2; struct conn *c = &th->c[k];
+            memcpy(w.maps, vt_maps, sizeof vt_maps);
+            if (th->pc % 2 == 0) { th->pc++; if (c->proto != 6) { check_connect(&w, th, c, 0); th->pc++; } }
+            else { check_connect(&w, th, c, th->cur_sport); th->pc++; }
+        }
+        running = t;
+    }
+    n_fine_exec++;
+    fw = NULL; fcur = -1;
+    return npts;
+}
+static void explore_fine(const struct world *init, int *prefix, int np) {
+    struct fpoint pts[FMAXP];
+    int n = fine_run(init, prefix, np, pts);
+    int pre = 0;
+    for (int i = 0; i < n; i++) {
+        if (i >= np) {
+            for (int alt = 1; alt < pts[i].nen; alt++) {
+                int cost = pre + (pts[i].cur_enabled ? 1 : 0);
+                if (cost > fine_bound) continue;
+                if (cost > n_fine_maxpre) n_fine_maxpre = cost;
+                int child[FMAXP];
+                for (int j = 0; j < i; j++) child[j] = pts[j].choice;
+                child[i] = alt;
+                explore_fine(init, child, i + 1);
+            }
+        }
+        if (pts[i].choice != 0 && pts[i].cur_enabled) pre++;
+    }
+}
+
 static int hex2(const char *s, unsigned char *out, int n) { for (int i = 0; i < n; i++) { unsigned v; if (sscanf(s + 2 * i, "%2x", &v) != 1) return 0; out[i] = (unsigned char)v; } return 1; }
 
 int main(int argc, char **argv) {
@@ -354,6 +458,13 @@ int main(int argc, char **argv) {
                         }
                         n_configs++;
                         explore(&w);
+                        if (mode <= 1 && !reuse && (mode == 0 || d3 % 2 == 0)) {
+                            /* the same configuration without environment events, hooks interleaved at helper calls */
+                            struct world f = w; f.toggles_left = 0; f.aborts_left = 0;
+                            fine_mode = 1; fine_bound = thorough ? 3 : 2; n_fine_configs++;
+                            int none[1]; explore_fine(&f, none, 0);
+                            fine_mode = 0;
+                        }
                     }
                 }
             }
@@ -361,6 +472,7 @@ int main(int argc, char **argv) {
     }
     printf("STAT connects_not_judged_policy_changed_between_hooks %ld\n", n_unspecified);
     printf("STAT configurations %ld\nSTAT states %ld\nSTAT transitions %ld\nSTAT connects_checked %ld\nSTAT diverts_expected %ld\nSTAT helper_calls %ld\nSTAT violations %ld\n", n_configs, n_states, n_trans, n_connects_checked, n_divert_expected, vt_helper_calls, n_viol);
+    printf("STAT fine_configurations %ld\nSTAT fine_executions %ld\nSTAT fine_steps %ld\nSTAT fine_max_preemptions %ld\n", n_fine_configs, n_fine_exec, n_fine_steps, n_fine_maxpre);
     for (int i = 0; i < nseen; i++) printf("VIOLCOUNT %s %ld\n", seen[i].sig, seen[i].count);
     for (int i = 0; i < napat; i++) {
         printf("AUDIT ");
